@@ -18,6 +18,10 @@ func vCachePool() []vOp {
 		{q: `{ me { name phone } }`},
 		{q: `{ me { id name phone } }`},
 		{q: `mutation { saveHuman(name: "x") { name phone } }`},
+		// the same named fragment spread under different directives
+		{q: `{ me { id ...F @skip(if: true) } } fragment F on Human { name phone }`},
+		{q: `{ me { id ...F @skip(if: false) } } fragment F on Human { name phone }`},
+		{q: `{ me { id ...F } } fragment F on Human { name phone }`},
 		{q: `query($c: Int) { me { phone(cc: $c) } }`, vars: func() map[string]interface{} {
 			return map[string]interface{}{"c": verifInt("var_c", 0, 9)}
 		}},
